@@ -74,5 +74,16 @@ b = open(os.path.join(dst, 'build.sh')).read().replace(agent_wt, '${REPO:-/repo}
 open(os.path.join(dst, 'build.sh'), 'w').write(b)
 meta['what_i_ran'] = ['scratch worktree of /repo HEAD: demo on clean tree (3 runs), git apply patch.diff, make -B testcpu && ./testcpu, demo with patch (3 runs)',
                       'tools/try_mutant.py patch.diff ' + ' '.join(checks) + ' (quick tier, VERIF_SEED=1), /repo reverted afterwards']
+# keep earlier results (a change that was missed first and caught after a check was strengthened stays visible)
+prev = None
+try:
+    prev = json.load(open(os.path.join(dst, 'meta.json')))
+except Exception:
+    pass
+hist = (prev or {}).get('history', [])
+if prev and prev.get('checks'):
+    hist.append(dict(verif_commit=prev.get('verif_commit'), checks=prev['checks']))
+meta['history'] = hist
+meta['verif_commit'] = subprocess.run(['git', '-C', '/verif', 'rev-parse', '--short', 'HEAD'], capture_output=True, text=True).stdout.strip()
 json.dump(meta, open(os.path.join(dst, 'meta.json'), 'w'), indent=1)
 print('recorded in', dst)
